@@ -13,7 +13,7 @@ Header arguments (5 tokens): <name> <comment> <extra> <mtime> <os>
          close result = ok | gzip | nobc | overflow
   c08.open <hdr x5> <xfl> <blocks>       the same for a writer that was never closed (Member.render only):
       -> "open <output length> <hasEOF> <member sizes>"
-  c08.abs <ops>          ops as in c01.write; the abstract script of the writer LTS (WriterAbs.absScript), in the
+  c08.abs <ops>          ops as in c01.write; the abstract script of the writer LTS (Hts.Model.WriterCompose.absScript, Model/WriterAbs.lean), in the
       syntax of the c12.* commands:  w<k> | f0 | f1 | wt | c
       -> "<abstract script>|<flush flags, one digit per Flush>|<seqBlocks of the abstract script>"
   c08.bound <n>  -> compressBound n
@@ -102,7 +102,7 @@ def handle (cmd : String) (args : List String) : Option String :=
     some s!"open {out.length} {boolStr (hasEOF out)} {C01.joinOr ((memberSizes (out.length + 1) out).map toString)}"
   | "c08.abs", [ops] => do
     let ops ← (C01.splitList ops).mapM C01.parseWOp
-    let abs := WriterAbs.absScript ops
+    let abs := WriterCompose.absScript ops
     let showOp : WriterLTS.Op → String
       | .write k => s!"w{k}"
       | .flush b => if b then "f1" else "f0"
